@@ -75,7 +75,7 @@ class CreateTopic(Obligation):
         for u, t in ents:
             p.assume(z3.Implies(u, U['topic_iid'](t) <= nid))        # manager invariant: ids in use never exceed next_id
         mp = MapM([(u, mk(ctx, 'TopicName', project_id=StrTok(U['topic_proj'](t)), topic_id=StrTok(U['topic_id'](t))), ArcTok(t, 'Topic')) for u, t in ents])
-        state = Cell(mk(ctx, 'State', 'topics/topic_manager', topics=mp, next_id=S(nid, 'u32')), 'state')
+        state = Cell(mk_opt(ctx, 'State', 'topics/topic_manager', topics=mp, next_id=S(nid, 'u32')), 'state')
         name = sym_name(ctx, p, 'TopicName', 'new')
         which = p.choose(2, 'op')
         if which == 0:
